@@ -45,6 +45,7 @@ OBLIGATIONS = {
     "log_mode": "a zero-free model was decoded with logarithmic tables",
     "greedy_fails": "the optimum does not start with the best first-epoch state (a greedy decoder would be wrong)",
     "epoch_dependent_transitions": "the transition tables of two epochs differ",
+    "every_verbose_mode": "a model decoded once with each reporting mode (none, all, progress bar, progress by epoch, default)",
     "likelihood_above_one": "an unnormalised model with a likelihood > 1 (negative cost) on its optimal sequence",
     "worse_prefix_wins": "every optimal sequence reaches some epoch k+1 from a state m of epoch k although a state listed "
                          "before m, joined to the same successor, is already at least as good as m's prefix alone (pruning "
@@ -165,8 +166,14 @@ def build(variant, sizes, P, Q, log):
     return HMM(S, Qf, Pf, log=log), track, cand
 
 
-def decode(hmm, track):
-    return guard(hmm.estimate, track, "obs", mode=MODE_OBS_AS_SCALAR, verbose=MODE_VERBOSE_NONE)
+VERBOSE = {"none": MODE_VERBOSE_NONE, "all": 1, "progress": 2, "progress-by-epoch": 3, "default": None}
+
+
+def decode(hmm, track, verbose="none"):
+    """verbose selects how the decoder reports its progress (the output is muted); it must not change what is decoded."""
+    if VERBOSE[verbose] is None:
+        return guard(hmm.estimate, track, "obs", mode=MODE_OBS_AS_SCALAR)
+    return guard(hmm.estimate, track, "obs", mode=MODE_OBS_AS_SCALAR, verbose=VERBOSE[verbose])
 
 
 def read(track, T):
@@ -254,7 +261,7 @@ def check_model(variant, sizes, flat, ctx):
     first = _decode_and_judge("estimate", variant, sizes, P, Q, False, best, case, ctx)
     if first is not None:
         hmm, track, seq, cost = first
-        st, r = decode(hmm, track)
+        st, r = decode(hmm, track, "progress")          # the same model and track again, with the progress-bar reporting
         ctx.count("decodings")
         if st != "ok":
             ctx.violation("estimate/second-decoding/%s" % ("does-not-return" if st == "hang" else "raises"), case, r)
@@ -267,6 +274,11 @@ def check_model(variant, sizes, flat, ctx):
     if all(v > 0 for v in flat):
         ctx.oblige("log_mode")
         _decode_and_judge("estimate-log", variant, sizes, P, Q, True, best, case, ctx)
+    # ---- every other reporting mode of the decoder, each on a fresh model and track (models of <= 2 epochs: complete) ----
+    if T <= 2:
+        for vb in ("all", "progress", "progress-by-epoch", "default"):
+            _decode_and_judge("estimate/verbose-" + vb, variant, sizes, P, Q, False, best, case, ctx, vb)
+        ctx.oblige("every_verbose_mode")
     return nontrivial
 
 
@@ -277,10 +289,10 @@ def _read(track, T):
         return None
 
 
-def _decode_and_judge(site, variant, sizes, P, Q, log, best, case, ctx):
+def _decode_and_judge(site, variant, sizes, P, Q, log, best, case, ctx, verbose="none"):
     """One decoding on a fresh track.  -> (hmm, track, sequence, cost) when everything the statement requires holds."""
     hmm, track, cand = build(variant, sizes, P, Q, log)
-    st, r = decode(hmm, track)
+    st, r = decode(hmm, track, verbose)
     ctx.count("decodings")
     if st != "ok":
         ctx.violation("%s/%s" % (site, "does-not-return" if st == "hang" else "raises"), case, r)
